@@ -280,6 +280,7 @@ class Analyzer:
         self.cmp_obs = {}  # (fn, bb of switch) -> operand intervals of the deciding comparison
         self.add_obs = {}  # (fn, bb of an Overflow:Add assert) -> (interval of a, interval of b)
         self.incr = {}  # (fn, bb of push/extend) -> max length increment
+        self.call_ok_obs = {}  # (fn, bb of a call to a local fn) -> join over contexts of the `#ok` fact of its result (None = unknown)
         self.lossy_obs = {}  # (fn, kind, target type) -> (exact interval, target range): narrowing casts / saturating / wrapping ops that may lose value
         self.agg_obs = {}
         self.len_obs = {}  # (adt, field) -> join of observed lengths at every struct literal (None = unknown somewhere)
@@ -1043,11 +1044,12 @@ class Analyzer:
             p = rv["place"]
             sk = place_key(p, f.locals)
             adt = rv.get("adt")
-            if sk is not None and adt in (flow.RESULT, flow.OPTION):
+            if sk is not None and adt in (flow.RESULT, flow.OPTION, flow.CONTROL_FLOW):
                 okv = st.v.get((sk[0], sk[1] + ("#ok",)))
                 if okv is not None and okv[0] == okv[1]:
                     is_ok = okv[0] == 1
-                    d = (0 if is_ok else 1) if adt == flow.RESULT else (1 if is_ok else 0)
+                    # Result: Ok=0/Err=1; ControlFlow: Continue=0/Break=1; Option: None=0/Some=1
+                    d = (0 if is_ok else 1) if adt in (flow.RESULT, flow.CONTROL_FLOW) else (1 if is_ok else 0)
                     self.set_key(st, dkey, (d, d))
             return
         if k == "ref" or k == "rawptr":
@@ -1348,6 +1350,10 @@ class Analyzer:
             ret = rets[0]
             for r in rets[1:]:
                 ret = {k: join(v, r[k]) for k, v in ret.items() if k in r}
+            if record:
+                okv = ret.get(("#ok",))
+                prev = self.call_ok_obs.get((f.path, b), "none")
+                self.call_ok_obs[(f.path, b)] = okv if prev == "none" else (join(prev, okv) if (prev is not None and okv is not None) else None)
             effects = []
             for i, owner in mut_owners:
                 if owner is None:
